@@ -143,6 +143,9 @@ def generate(rng, tier):
         for k in (1, 2, 3):
             for what in ('self', 'other', 'unknown', 'sweep'):
                 yield from c14.interleaved_history(ttl, k, what, 1)
+    # the correlator's operations interleaved under random schedules, compared with the turn-level model
+    for _ in range(200 if thorough else 50):
+        yield from c14.sched_history(rng, rng.choice((1024, 15 * 1024)))
     # session level: the real ESME.start() with an application that queues message objects a second time and clones of
     # objects already sent; judged by the wire (distinct sequence numbers) and the outcome ledger
     from corr import c01s
@@ -150,6 +153,8 @@ def generate(rng, tier):
 
 
 def replay(inp):
+    if inp['op'] == 'sched':
+        return Case('\n'.join(['c.new %d 102400' % inp['ttl']] + inp.get('lines', [])), '', None, None, inp)
     if inp['op'] == 'interleaved':
         from corr import c14
         return c14.interleaved_history(inp['ttl'], inp['k'], inp['what'], inp['which'])[-1]
